@@ -287,6 +287,10 @@ type repoManager struct {
 	branchToUUID map[string]dvid.UUID
 	branchMutex  sync.RWMutex
 
+	// Serializes the creation of child versions (newVersion, merge): each checks the children of
+	// its parents and then appends to them.
+	childMutex sync.Mutex
+
 	// Counters that provide the local IDs of the next new repo, version, or data instance.
 	// Valid counters should be >= 1, so we can distinguish between valid ids and the
 	// default zero value.
@@ -1801,6 +1805,9 @@ func (m *repoManager) makeMaster(newMasterUUID dvid.UUID, oldMasterBranchName st
 // newVersion creates a new version as a child of the given parent.  If the
 // assign parameter is not nil, the new node is given the UUID.
 func (m *repoManager) newVersion(parent dvid.UUID, note string, branchname string, assign *dvid.UUID) (dvid.UUID, error) {
+	m.childMutex.Lock()
+	defer m.childMutex.Unlock()
+
 	r, err := m.repoFromUUID(parent)
 	if err != nil {
 		return dvid.NilUUID, err
@@ -1906,6 +1913,8 @@ func (m *repoManager) merge(parents []dvid.UUID, note string, mt MergeType) (dvi
 	if len(parents) < 2 {
 		return dvid.NilUUID, ErrInvalidUUID
 	}
+	m.childMutex.Lock()
+	defer m.childMutex.Unlock()
 
 	m.repoMutex.RLock()
 	r, found := m.repos[parents[0]]
